@@ -199,7 +199,7 @@ pub fn run(tier: Tier) -> Report {
     // large N: single steps only
     let inp = pattern(16);
     let mut out = vec![0u8; 16];
-    for n in [(1u64 << 32) - 1, (1u64 << 32) + 1, 1u64 << 63, u64::MAX] {
+    for n in [(1u64 << 32) - 1, 1u64 << 32, (1u64 << 32) + 1, 1u64 << 33, 3u64 << 32, 1u64 << 63, u64::MAX] {
         for w in [0usize, 1, 7] {
             for o in [0usize, 1, 8] {
                 rep.evaluations += 1;
